@@ -377,6 +377,26 @@ func (m *Model) RunTextFlow(s *Sink, rule string) {
 		}
 		return fieldPathOf(c.Common().Args[1]) == ".char"
 	}
+	// the text may also be collected in a byte slice: append(text, l.char)
+	appendChar := func(c ssa.CallInstruction) bool {
+		if bi, isB := c.Common().Value.(*ssa.Builtin); isB && bi.Name() == "append" && len(c.Common().Args) == 2 {
+			el := variadicElems(c.Common().Args[1])
+			return len(el) == 1 && fieldPathOf(el[0]) == ".char"
+		}
+		return false
+	}
+	sliceText := false
+	for _, b := range rh.Blocks {
+		for _, in := range b.Instrs {
+			if c, isC := in.(ssa.CallInstruction); isC && appendChar(c) {
+				sliceText = true
+			}
+		}
+	}
+	if sliceText {
+		base := writeByte
+		writeByte = func(c ssa.CallInstruction) bool { return appendChar(c) || (c.Common().StaticCallee() != nil && base(c)) }
+	}
 	pi := m.newPassInfo(writeByte, func(*ssa.Call) bool { return false }, []*ssa.Function{rh}, nil)
 	skipped := false
 	for b := range li.body {
@@ -432,6 +452,59 @@ func (m *Model) RunTextFlow(s *Sink, rule string) {
 				s.OK(rule, key, m.InstrPos(c), "Truncate(Len()-1) under the escaped-directive / escaped-braces flag")
 			} else {
 				s.Violation(rule, key, m.InstrPos(c), "the text scanner removes output (Truncate) other than exactly one byte under the escape flags: text bytes are lost")
+			}
+		}
+	}
+	if sliceText {
+		// removal from a byte slice: text[:len(text)-1], under an escape flag; no other reslicing of the collected text
+		for _, b := range rh.Blocks {
+			for _, in := range b.Instrs {
+				sl, ok := in.(*ssa.Slice)
+				if !ok {
+					continue
+				}
+				if _, isBytes := sl.X.Type().Underlying().(*types.Slice); !isBytes {
+					continue
+				}
+				if _, isAlloc := sl.X.(*ssa.Alloc); isAlloc {
+					continue // the argument array of a variadic call
+				}
+				nTr++
+				oneByte := false
+				if sl.Low == nil && sl.High != nil {
+					d := a.lin(sl.High).add(a.lin(lenOfValue(sl.X, b)), -1)
+					oneByte = len(d.T) == 0 && d.C == -1
+					if !oneByte {
+						// len(text) computed by a separate call on the same value
+						if sub, isSub := sl.High.(*ssa.BinOp); isSub && sub.Op == token.SUB {
+							if k, isK := sub.Y.(*ssa.Const); isK && k.Value != nil && k.Int64() == 1 {
+								if lc, isCall := sub.X.(*ssa.Call); isCall {
+									if bi, isB := lc.Call.Value.(*ssa.Builtin); isB && bi.Name() == "len" && lc.Call.Args[0] == sl.X {
+										oneByte = true
+									}
+								}
+							}
+						}
+					}
+				}
+				escaped := allPathsEstablish(b, func(f Fact) bool {
+					ex, ok := f.Cond.(*ssa.Extract)
+					if !ok || !f.Holds || ex.Index != 1 {
+						return false
+					}
+					call, ok := ex.Tuple.(*ssa.Call)
+					if !ok || call.Call.StaticCallee() == nil {
+						return false
+					}
+					nm := canonFnName(call.Call.StaticCallee())
+					return nm == "isDirectiveToken" || nm == "areBracesToken"
+				}, 0)
+				key := fk + "|only the escape backslash is removed"
+				if oneByte && escaped {
+					s.OK(rule, key, m.InstrPos(sl), "text[:len(text)-1] under the escaped-directive / escaped-braces flag")
+				} else {
+					s.Violation(rule, key, m.InstrPos(sl), "the text scanner removes output (reslices the collected text) other than exactly one byte under the escape flags: text bytes are lost")
+				}
 			}
 		}
 	}
@@ -642,8 +715,14 @@ func (m *Model) RunTextFlow(s *Sink, rule string) {
 		ok := false
 		for _, b := range rh.Blocks {
 			if ret, isRet := b.Instrs[len(b.Instrs)-1].(*ssa.Return); isRet {
-				if c, isC := ret.Results[0].(*ssa.Call); isC && c.Call.StaticCallee() != nil && fnFullName(c.Call.StaticCallee()) == "(*bytes.Buffer).String" {
+				if c, isC := ret.Results[0].(*ssa.Call); isC && c.Call.StaticCallee() != nil && (fnFullName(c.Call.StaticCallee()) == "(*bytes.Buffer).String" || fnFullName(c.Call.StaticCallee()) == "(*strings.Builder).String") {
 					ok = true
+				}
+				// string(text) of the byte slice the characters were appended to
+				if cv, isCv := ret.Results[0].(*ssa.Convert); isCv {
+					if _, isSl := cv.X.Type().Underlying().(*types.Slice); isSl {
+						ok = true
+					}
 				}
 			}
 		}
@@ -662,7 +741,20 @@ func (m *Model) RunTextFlow(s *Sink, rule string) {
 	// comment terminator is the full four-byte constant
 	sc := m.Method("lexer", "Lexer", "skipComment")
 	if sc != nil {
-		ok := false
+		ok, nTrue := true, 0
+		isTerm := func(c *ssa.Call, names ...string) bool {
+			if c == nil || c.Call.StaticCallee() == nil || len(c.Call.Args) < 2 {
+				return false
+			}
+			n := fnFullName(c.Call.StaticCallee())
+			for _, want := range names {
+				if n == want {
+					lit, okl := constOfValue(c.Call.Args[1])
+					return okl && lit == "--}}"
+				}
+			}
+			return false
+		}
 		for _, b := range sc.Blocks {
 			ret, isRet := b.Instrs[len(b.Instrs)-1].(*ssa.Return)
 			if !isRet || len(ret.Results) != 1 {
@@ -671,16 +763,37 @@ func (m *Model) RunTextFlow(s *Sink, rule string) {
 			if k, isK := ret.Results[0].(*ssa.Const); !isK || k.Value == nil || k.Value.String() != "true" {
 				continue
 			}
+			nTrue++
+			seenTerm := false
 			for _, f := range expandFacts(factsAt(b)) {
-				if c, isC := f.Cond.(*ssa.Call); isC && f.Holds && c.Call.StaticCallee() != nil && fnFullName(c.Call.StaticCallee()) == "strings.HasPrefix" {
-					if lit, okl := constOfValue(c.Call.Args[1]); okl && lit == "--}}" {
-						ok = true
+				if c, isC := f.Cond.(*ssa.Call); isC && f.Holds && isTerm(c, "strings.HasPrefix") {
+					seenTerm = true
+				}
+				// found by a search: strings.Index(rest, "--}}") >= 0, or the found flag of strings.Cut
+				if bo, isBo := f.Cond.(*ssa.BinOp); isBo {
+					c, _ := bo.X.(*ssa.Call)
+					k, isK := bo.Y.(*ssa.Const)
+					if isTerm(c, "strings.Index") && isK && k.Value != nil {
+						found := (bo.Op == token.GEQ && k.Int64() == 0 && f.Holds) || (bo.Op == token.LSS && k.Int64() == 0 && !f.Holds) ||
+							(bo.Op == token.NEQ && k.Int64() == -1 && f.Holds) || (bo.Op == token.EQL && k.Int64() == -1 && !f.Holds) || (bo.Op == token.GTR && k.Int64() == -1 && f.Holds)
+						if found {
+							seenTerm = true
+						}
+					}
+				}
+				if ex, isEx := f.Cond.(*ssa.Extract); isEx && f.Holds && ex.Index == 2 {
+					if c, isC := ex.Tuple.(*ssa.Call); isC && isTerm(c, "strings.Cut") {
+						seenTerm = true
 					}
 				}
 			}
+			if !seenTerm {
+				ok = false
+			}
 		}
+		ok = ok && nTrue > 0
 		if ok {
-			s.OK(rule, fnKey(sc)+"|a comment ends only at --}}", m.Pos(sc.Pos()), "the terminated outcome is reached only under HasPrefix(rest, \"--}}\")")
+			s.OK(rule, fnKey(sc)+"|a comment ends only at --}}", m.Pos(sc.Pos()), "the terminated outcome is reached only under HasPrefix(rest, \"--}}\") or a successful search for that constant")
 		} else {
 			s.Violation(rule, fnKey(sc)+"|a comment ends only at --}}", m.Pos(sc.Pos()), "skipComment can report the comment as terminated without having seen the full terminator --}}: text inside or after a comment is misinterpreted")
 		}
@@ -868,4 +981,16 @@ func (m *Model) isTextModeRead(v ssa.Value) bool {
 	}
 	c, ok := v.(*ssa.Call)
 	return ok && c.Call.StaticCallee() == mp.getter
+}
+
+// lenOfValue: a value standing for len(v) in the linear engine (the len call on v in this block, if any; else v itself).
+func lenOfValue(v ssa.Value, b *ssa.BasicBlock) ssa.Value {
+	for _, in := range b.Instrs {
+		if c, ok := in.(*ssa.Call); ok {
+			if bi, isB := c.Call.Value.(*ssa.Builtin); isB && bi.Name() == "len" && len(c.Call.Args) == 1 && c.Call.Args[0] == v {
+				return c
+			}
+		}
+	}
+	return v
 }
